@@ -26,6 +26,8 @@ def make(pid, flags, own_prefixes, nontrivial, extra_exc=()):
             classes.append("has:multi-engine")
         if case["spec"]["cap"] is not None:
             classes.append("has:cap")
+        if case["spec"].get("int_toml"):
+            classes.append("has:integer-typed-interfaces")
         if case["spec"].get("quantis"):
             classes.append("has:quantis")
         if case["spec"].get("keep_side"):
